@@ -7,9 +7,11 @@ use nederlang::object::Type;
 use nederlang::verif;
 use std::collections::{BTreeMap, HashMap, HashSet, VecDeque};
 
-/// Heights are explored exactly up to this much above the frame base; reaching it means a cycle
-/// that grows the stack (reported for C11), and exploration stops there.
-pub const HEIGHT_CAP: u32 = 96;
+/// Heights are explored exactly; an instruction reached with more than this many DIFFERENT heights lies on
+/// a cycle that grows the stack (reported for C11) and is not explored any higher. Straight-line code has
+/// one height per instruction however long it is (a 65 000-element array literal included), and the
+/// recorded finding KF-C11-01 (an exit with operands pending) gives a handful.
+pub const HEIGHTS_PER_IP: u16 = 64;
 
 #[derive(Clone, Debug)]
 pub struct OpInfo {
@@ -107,6 +109,7 @@ pub fn explore(bc: &Bytecode, ops: &HashMap<u8, OpInfo>) -> Graph {
     let mut parent: HashMap<(usize, u32, u32), (usize, u32, u32)> = HashMap::new();
     for (ci, ctx) in contexts.iter().enumerate() {
         let mut queue: VecDeque<(usize, u32, u32)> = VecDeque::new();
+        let mut heights_at: Vec<u16> = vec![0; code.len() + 1];
         let start = (ci, ctx.entry as u32, ctx.num_locals);
         if g.states.insert(start) {
             queue.push_back(start);
@@ -226,13 +229,17 @@ pub fn explore(bc: &Bytecode, ops: &HashMap<u8, OpInfo>) -> Graph {
                     report!(g, "jump-out-of-code", format!("{name} at {ip} continues at {t}, code length {}", code.len()));
                     continue;
                 }
-                if h2 >= ctx.num_locals + HEIGHT_CAP {
+                let ns = (ci, t as u32, h2);
+                if g.states.contains(&ns) {
+                    continue;
+                }
+                if heights_at[t] >= HEIGHTS_PER_IP {
                     if !g.growing.contains(&(ci, t)) {
                         g.growing.push((ci, t));
                     }
                     continue;
                 }
-                let ns = (ci, t as u32, h2);
+                heights_at[t] += 1;
                 if g.states.insert(ns) {
                     parent.insert(ns, s);
                     queue.push_back(ns);
